@@ -27,9 +27,13 @@ ASSUMPTIONS = [
     'PixelData of native 1-bit images is pack(frames.flatten) (checked against pydicom pack_bits each run)',
     'decoding bytes of >= 8-bit native frames to numbers is numpy frombuffer on every path (frames compared as bytes in the model)',
     'encapsulated syntaxes (RLE, JPEG-LS, fixtures): codec behaviour is not modelled; oracle only',
+    'item lengths and offset-table entries below 2^32 / 2^64 (their field widths); little-endian transfer syntaxes',
+    'the cache of the whole array is modelled by VALUE of the PixelData (pydicom compares object identities: replacing the value '
+    'by an equal but distinct bytes object re-decodes, harmlessly; mutating a bytearray in place is outside the model)',
 ]
-MODELLED_NOT_VERIFIED = ['pydicom file reader / pixel decoders', 'numpy unpackbits/reshape', 'RLE / JPEG-LS codecs',
-                         'pydicom.encaps get_frame (in-memory encapsulated access)']
+MODELLED_NOT_VERIFIED = ['pydicom file reader / pixel decoders (numbers from bytes, planar rearrangement)', 'numpy unpackbits/reshape',
+                         'RLE / JPEG-LS / JPEG / JPEG 2000 codecs', 'pydicom.encaps get_frame (in-memory encapsulated access)',
+                         'pydicom Dataset.pixel_array staleness check (hand model, stream history)', 'reader open/close depth']
 
 
 def _images(ctx):
@@ -873,6 +877,10 @@ def _byte_streams(ctx, reqs, pending):
             pos += sum(8 + len(f) for f in fr)
         defect = r.choice(['none', 'none', 'none', 'no-delimiter', 'odd-item', 'zero-item', 'foreign-tag', 'cut-last-item', 'junk-after'])
         table = r.choice(['bot-empty', 'bot-empty', 'bot-good', 'bot-wrong-count', 'bot-wrong-entries', 'eot-good', 'eot-wrong-count', 'eot-ragged'])
+        if ctx.rng('bytestream2', idx).random() < 0.08:
+            # PS3.5 A.4 demands an EMPTY Basic Offset Table next to an Extended Offset Table; the reader relies on it (first frame
+            # 8 bytes into the value).  A file that breaks the rule: no oracle claim, model and reader must agree (both refuse)
+            table = 'eot-with-nonempty-bot'
         items = [item(f) for f in flat]
         k = r.randrange(len(items))
         if defect == 'odd-item':
@@ -897,6 +905,9 @@ def _byte_streams(ctx, reqs, pending):
             bot_entries = [o + r.choice([0, 2, 8, -8 if o else 4]) for o in offs]
         elif table == 'eot-good':
             eot = b''.join(o.to_bytes(8, 'little') for o in offs)
+        elif table == 'eot-with-nonempty-bot':
+            eot = b''.join(o.to_bytes(8, 'little') for o in offs)
+            bot_entries = offs
         elif table == 'eot-wrong-count':
             eot = b''.join(o.to_bytes(8, 'little') for o in offs + [pos])
         elif table == 'eot-ragged':
